@@ -184,6 +184,18 @@ def text_roundtrip(run, fgd: Any, custom: bool, label: bool, as_bytes: bool, eng
     except Exception as exc:
         run.violation(f'export raised {type(exc).__name__}: {exc}', case=case, engine=engine, key='export-raises')
         return None, False
+    # the same object exported again into a file object: identical text, nothing returned
+    try:
+        fbuf = io.StringIO()
+        ret = fgd.export(fbuf, custom_syntax=custom, label_spawnflags=label)
+        if ret is not None or fbuf.getvalue() != text:
+            k = next((i for i, (a, b) in enumerate(zip(text, fbuf.getvalue())) if a != b), min(len(text), len(fbuf.getvalue())))
+            run.violation('export into a file object differs from the text export() returned just before',
+                          witness={'returned_text': text[max(0, k - 150):k + 150], 'file_text': fbuf.getvalue()[max(0, k - 150):k + 150]},
+                          case=case, engine=engine, key='export-file-form-differs')
+        run.count('file_form_exports')
+    except Exception as exc:
+        run.violation(f'export(file) raised {type(exc).__name__}: {exc}', case=case, engine=engine, key='export-raises')
     # export() completes the visgroup tree in place (it adds the groups that are only named as parents, 'Auto' included),
     # so the reference for the FGD-level sections is the object as it stands after the export
     level_before = G.fgd_level(fgd)
@@ -719,7 +731,7 @@ def main(run, shard=(0, 1)) -> None:
         if cnt:
             run.count('reach:' + label_, cnt)
     run.require(*['reach:' + label_ for label_ in probe.counts])
-    run.require('exports', 'parses', 'fgd_level_sections_compared', 'entities_compared', 'second_exports', 'serialise_calls', 'unserialise_calls',
+    run.require('exports', 'parses', 'file_form_exports', 'fgd_level_sections_compared', 'entities_compared', 'second_exports', 'serialise_calls', 'unserialise_calls',
                 'lazy_queries', 'dbase_roundtrips', 'binary_dbase_roundtrips', 'long_strings', 'empty_display_names',
                 'tagged_duplicate_keys', 'aliases', 'texts_with_plus_split', 'binary_entities_compared')
 
